@@ -2,6 +2,9 @@ use std::fmt::{Debug, Formatter};
 use std::io;
 use std::sync::{Arc, RwLock};
 use std::thread::panicking;
+#[cfg(indicatif_verif)]
+use crate::verif_clock::Instant;
+#[cfg(not(indicatif_verif))]
 #[cfg(not(target_arch = "wasm32"))]
 use std::time::Instant;
 
